@@ -31,7 +31,7 @@ fn scratch() -> std::path::PathBuf {
 }
 
 fn base_policy() -> Policy {
-    Policy { prefix: vec![], max_steps: 20_000, yield_on_unbounded_send: true, cap_override: None }
+    Policy { prefix: vec![], max_steps: 20_000, yield_on_unbounded_send: true, cap_override: None, descending: false }
 }
 
 struct SchedOutcome {
@@ -45,10 +45,16 @@ struct SchedOutcome {
 
 fn explore_scenario(rep: &mut Reporter, scn: &Scn, bound: usize, max_exec: u64, label: &str) -> SchedOutcome {
     let cfg = scenario::config(scn);
-    let base = base_policy();
     let mut outputs: BTreeMap<(Option<Vec<u8>>, bool), Vec<usize>> = BTreeMap::new();
     let mut arrival: std::collections::BTreeSet<Vec<usize>> = Default::default();
     let mut problems: Vec<(String, String, Vec<usize>)> = Vec::new();
+    let mut executions = 0u64;
+    let mut steps = 0u64;
+    let mut capped = false;
+    let mut abstract_states: std::collections::HashSet<u64> = Default::default();
+    // two base schedules (default policy prefers the oldest / the youngest waiting thread); d deviations around each
+    for descending in [false, true] {
+    let base = Policy { descending, ..base_policy() };
     // replay determinism: the default schedule twice
     let (r1, o1) = scenario::run(scn, cfg, base.clone());
     let (r2, o2) = scenario::run(scn, cfg, base.clone());
@@ -81,9 +87,17 @@ fn explore_scenario(rep: &mut Reporter, scn: &Scn, bound: usize, max_exec: u64, 
         let e = outputs.entry((o.stats_file.clone(), o.any_errors)).or_default();
         if e.is_empty() {
             *e = prefix.to_vec();
+            if descending {
+                e.insert(0, usize::MAX); // marks a schedule relative to the descending base schedule
+            }
         }
         true
     });
+    executions += st.executions;
+    steps += st.steps;
+    capped |= st.capped;
+    abstract_states.extend(st.distinct_abstract_states.iter().copied());
+    }
     for (sig, d, p) in problems {
         if sig == "__machinery" {
             rep.machinery_error(format!("{label}: {d}"));
@@ -105,7 +119,7 @@ fn explore_scenario(rep: &mut Reporter, scn: &Scn, bound: usize, max_exec: u64, 
     if outputs.keys().any(|k| k.0.is_none()) {
         rep.machinery_error(format!("{label}: an execution wrote no statistics file"));
     }
-    SchedOutcome { executions: st.executions, steps: st.steps, abstract_states: st.distinct_abstract_states.len(), distinct_outputs: outputs.len(), distinct_arrival_orders: arrival.len(), capped: st.capped }
+    SchedOutcome { executions, steps, abstract_states: abstract_states.len(), distinct_outputs: outputs.len(), distinct_arrival_orders: arrival.len(), capped }
 }
 
 thread_local! {
@@ -315,6 +329,13 @@ pub fn run(tier: Tier, _replay: Option<String>) -> i32 {
     // three links, muted, check all its
     let (_, bytes3) = streams::multi_link(3, 1, 1, true, false);
     scenarios.push(("AllIts mute=false 3 links x 1 HBF, batch 3".into(), Scn { mode: Mode::AllIts, mute: false, max_errors: 0, signal: false, cap: 3, input: Arc::new(bytes3), scratch: scratch(), toml: true }));
+    // the reader's own message (E100, payload cut short by the end of input) competes with the validators' messages:
+    // the last RDH carries E10 + E11 and its payload is cut by 8 bytes
+    for mode in [Mode::AllIts, Mode::All] {
+        let (_, mut bytes) = streams::multi_link(2, 1, 0, true, false);
+        bytes.truncate(bytes.len() - 8);
+        scenarios.push((format!("{:?} mute=false 2 links x 1 HBF, E10+E11 on every RDH, last payload cut by 8 bytes (reader reports E100), batch 2", mode), Scn { mode, mute: false, max_errors: 0, signal: false, cap: 2, input: Arc::new(bytes), scratch: scratch(), toml: false }));
+    }
     for (label, scn) in &scenarios {
         let cap = if tier.is_thorough() { 400_000 } else { 6_000 };
         let so = explore_scenario(&mut rep, scn, bound, cap, label);
@@ -362,7 +383,8 @@ pub fn run(tier: Tier, _replay: Option<String>) -> i32 {
     rep.cov("merges", json!(merges));
     rep.cov("commutation_pairs_checked", json!(pairs));
     rep.cov("order_dependent_pairs_same_sender_only", json!(nc));
-    rep.sample(json!({"schedule": "list of indices into the canonical enabled set at each scheduling point; [] = default schedule", "example": [0, 0, 1]}));
+    rep.sample(json!({"schedule": "list of indices into the canonical enabled set at each scheduling point; [] = default schedule; a leading 18446744073709551615 marks the descending base schedule", "example": [0, 0, 1]}));
+    rep.cov("base_schedules", json!(["default policy prefers the running thread, then the oldest waiting thread", "... then the youngest waiting thread"]));
     rep.assume("one channel operation / flag access is one atomic step (crossbeam / flume operations are linearizable; shim semantics are bound to the real crates by the conformance run of C17)");
     rep.assume("complete only up to the stated deviation bound for the whole pipeline; the merge closure is complete for the listed shapes");
     let code = rep.finish_with(|line| say!("{line}"));
